@@ -58,7 +58,7 @@ CURATED = [
     ("greedyrange", ("adapt", VAR, "inc"), 0),
     # variable-size bit regions (streaming implementation) written in pieces smaller than a byte
     ("raw", "Bitwise(Struct('n'/BitsInteger(3), 'f'/Flag, 'r'/Array(this.n & 1, Nibble), 't'/Nibble))"), ("raw", "Bitwise(Struct('a'/BitsInteger(2), 'b'/BitsInteger(1), 'c'/If(this.a, BitsInteger(8)), 'd'/BitsInteger(5)))"),
-    ("raw", "Bitwise(Struct('k'/BitsInteger(1), 'x'/BitsInteger(2), 'v'/Switch(this.k, {0: BitsInteger(5), 1: BitsInteger(13)})))"), ("raw", "Bitwise(GreedyRange(Struct('a'/BitsInteger(3), 'b'/Flag)))"),
+    ("raw", "Bitwise(Struct('k'/BitsInteger(1), 'x'/BitsInteger(2), 'v'/Switch(this.k, {0: BitsInteger(5), 1: BitsInteger(13)})))"), ("raw", "Bitwise(Array(3, Struct('a'/BitsInteger(3), 'b'/Flag, 'c'/If(this.b, BitsInteger(4)))))"),
     # members cut short by StopIf: the parsed value is shorter than the member list and must still build
     ("raw", "Sequence('a'/Byte, StopIf(this.a == 0), 'b'/Byte)"), ("raw", "Struct('a'/Byte, StopIf(this.a == 0), 'b'/Byte)"), ("raw", "Sequence(StopIf(True), Byte)"),
     ("raw", "Struct('s'/Sequence('a'/Byte, StopIf(this.a & 1), 'b'/Int16ub), 't'/Byte)"), ("raw", "GreedyRange(Sequence('a'/Byte, StopIf(this.a == 0), 'b'/Byte))"),
